@@ -274,11 +274,13 @@ fn replay_variant(scn: &Scenario, prop: &str, variant: u8) -> Vec<String> {
     2 => {
       // Unrelated instances first (same thread, so allocator state and per-thread hash counters have moved).
       let mut rng = Rng::new(scn.hash_seed.unwrap_or(7) ^ 0xDEAD_BEEF);
-      for k in 0..4 {
-        let cfg = GenCfg::default();
-        // Unrelated instances that end in a diagnosed cycle as well: whatever an aborted build leaves behind outside
-        // its own instance (thread-local scratch space, ...) must not matter either.
-        let program = if k == 0 { gen_program_w(&mut rng, &cfg) } else { gen_program_x(&mut rng, &cfg, 3) };
+      for k in 0..6 {
+        // Unrelated instances of several kinds: well-formed; ending in a diagnosed cycle; bottom-up sessions with
+        // dropped builds, builds aborted by crashes and sessions that go on after an abort. Whatever they leave behind
+        // outside their own instance (thread-local scratch space, pooled allocations, ...) must not matter.
+        let mut cfg = GenCfg::default();
+        if k >= 4 { cfg.bottom_up = 80; cfg.td_between = true; cfg.in_session = true; cfg.crash = true; cfg.same_session = k == 5; cfg.big = true; }
+        let program = if k == 0 || k >= 4 { gen_program_w(&mut rng, &cfg) } else { gen_program_x(&mut rng, &cfg, 3) };
         let (init, steps, faults) = gen_history(&mut rng, &program, &cfg);
         let other = Scenario { hash_seed: Some(rng.next()), program, init, steps, faults, replays: 0, proc_replay: false };
         let mut r = run::Runner::new(&other, prop);
